@@ -172,6 +172,126 @@ def sweepGCDirs (rt : Runtime) (ds : List (Option Dir)) : List (Option Dir) × L
   (ds.map (Option.map (fun d => (sweepGCDir rt d).1)),
    (ds.map (fun o => match o with | none => [] | some d => (sweepGCDir rt d).2)).flatten)
 
+/-! ### one pass of cleanupIP interleaved with the environment (CNI ADD / DEL while the round talks to the runtime)
+
+  The collector lists a directory when it reaches it and then, file by file: reads the file's CURRENT content, asks
+  the runtime about the container named there (one inspect call) and removes the file if that container is dead.
+  The environment may move while an inspect call is in flight; `sched k` are the moves that land during the k-th
+  inspect call of the round.  A move that hits the very file whose owner is being inspected falls into the window
+  between read and remove that every read-inspect-remove implementation has; such moves are not applied and the run is
+  flagged `inadmissible` (no claim). -/
+
+/-- what host-local does to a reservation file: write it (new reservation, or re-use of a released address by
+    another container) or delete it (release) -/
+inductive EnvMove where
+  | write (dir : Nat) (name : String) (content : String) (ip6 : Bool)
+  | delete (dir : Nat) (name : String)
+  deriving DecidableEq, Repr
+
+def EnvMove.targets : EnvMove → Nat → String → Bool
+  | .write d n _ _, j, m => d == j && n == m
+  | .delete d n, j, m => d == j && n == m
+
+/-- the allocated-IP directories, in the order of the flag; `none` = missing -/
+abbrev FS := List (Option Dir)
+
+def Dir.lookup : Dir → String → Option Entry
+  | [], _ => none
+  | x :: t, n => if x.name = n then some x else Dir.lookup t n
+
+def Dir.write : Dir → Entry → Dir
+  | [], e => [e]
+  | x :: t, e => if x.name = e.name then e :: t else x :: Dir.write t e
+
+def Dir.remove : Dir → String → Dir
+  | [], _ => []
+  | x :: t, n => if x.name = n then Dir.remove t n else x :: Dir.remove t n
+
+def dirAt : FS → Nat → Option Dir
+  | [], _ => none
+  | x :: _, 0 => x
+  | _ :: t, i + 1 => dirAt t i
+
+def modifyAt (f : Dir → Dir) : FS → Nat → FS
+  | [], _ => []
+  | x :: t, 0 => x.map f :: t
+  | x :: t, i + 1 => x :: modifyAt f t i
+
+def FS.apply (fs : FS) : EnvMove → FS
+  | .write d n c ip6 => modifyAt (fun dir => Dir.write dir ⟨n, .file c, ip6⟩) fs d
+  | .delete d n => modifyAt (fun dir => Dir.remove dir n) fs d
+
+/-- the current content of regular file `n` of directory `j` -/
+def contentOf (fs : FS) (j : Nat) (n : String) : Option String :=
+  match (dirAt fs j).bind (fun d => Dir.lookup d n) with
+  | some e => match e.kind with
+    | .file c => some c
+    | .dir => none
+  | none => none
+
+/-- one removal: which file, what the collector had read, what the file contained at the moment it was removed -/
+structure Removal where
+  dir : Nat
+  name : String
+  readContent : String
+  contentAtRemoval : Option String
+  deriving DecidableEq, Repr
+
+structure SweepState where
+  fs : FS
+  calls : Nat := 0
+  log : List Removal := []
+  inadmissible : Bool := false
+
+/-- one iteration of the entry loop for listing entry `e` of directory `j` -/
+def stepIPFile (rt : Runtime) (sched : Nat → List EnvMove) (j : Nat) (st : SweepState) (e : Entry) : SweepState :=
+  match e.kind with
+  | .dir => st                                   -- `fi.IsDir()` (from the listing)
+  | .file _ =>
+    if !e.isIPName then st else
+    match contentOf st.fs j e.name with          -- `ioutil.ReadFile`: the CURRENT content
+    | none => st                                 -- released meanwhile / unreadable
+    | some c =>
+      if c.isEmpty then st else
+      let k := st.calls + 1                      -- the k-th inspect call of the round
+      let ms := sched k
+      let ok := ms.filter (fun m => !m.targets j e.name)
+      let fs' := ok.foldl FS.apply st.fs
+      let st' : SweepState := { st with fs := fs', calls := k, inadmissible := st.inadmissible || ok.length != ms.length }
+      if shouldCleanup (rt (cidOfContent c)) then
+        { st' with fs := modifyAt (fun d => Dir.remove d e.name) fs' j,
+                   log := st'.log ++ [⟨j, e.name, c, contentOf fs' j e.name⟩] }
+      else st'
+
+def insertByName (e : Entry) : List Entry → List Entry
+  | [] => [e]
+  | x :: t => if x.name < e.name then x :: insertByName e t else e :: x :: t
+
+/-- `ioutil.ReadDir` returns the entries sorted by file name -/
+def sortByName : List Entry → List Entry
+  | [] => []
+  | x :: t => insertByName x (sortByName t)
+
+/-- directory `j`: listed (`ioutil.ReadDir`: sorted by name) when the sweep reaches it -/
+def sweepIPDirI (rt : Runtime) (sched : Nat → List EnvMove) (st : SweepState) (j : Nat) : SweepState :=
+  match dirAt st.fs j with
+  | none => st
+  | some listing => (sortByName listing).foldl (stepIPFile rt sched j) st
+
+/-- one pass of cleanupIP over all directories under the schedule `sched` -/
+def sweepIPDirsI (rt : Runtime) (sched : Nat → List EnvMove) (fs : FS) : SweepState :=
+  (List.range fs.length).foldl (sweepIPDirI rt sched) { fs := fs }
+
+/-- the refactoring "ask the runtime once per container": owners of ALL files are read first, the moves land while
+    the runtime is asked, then the recorded PATHS of dead owners are removed without reading again -/
+def batchedSweepDir (rt : Runtime) (moves : List EnvMove) (fs : FS) (j : Nat) : FS :=
+  match dirAt fs j with
+  | none => fs
+  | some listing =>
+    let doomed := listing.filter (removesIP rt)
+    let fs' := moves.foldl FS.apply fs
+    doomed.foldl (fun acc e => modifyAt (fun d => Dir.remove d e.name) acc j) fs'
+
 /-! ### port mappings (the state the callback cleans) -/
 
 /-- the callback as galaxy wires it (`cleanIPtables`): the mapping of `cid` is removed iff the callback succeeds;
